@@ -3024,7 +3024,9 @@ class C08(Property):
                   "header with scope fall-back): the model accepts a document iff it is well-typed and meets every declared "
                   "constraint, the result then is exactly the typed decoding with defaults, no input yields a panic; every field at "
                   "any depth of an accepted document meets its constraints; a call of httpx.Parse is accepted iff each of its four "
-                  "passes is and the validator agrees; calls served by one process are independent. The model is tied to "
+                  "passes is and the validator agrees; calls served by one process are independent; any number of looks at one "
+                  "request object through any REST entry points each return what a fresh request returns and leave the request "
+                  "as it was (GetFormValues modelled: a form parameter is supplied iff it has a non-empty value). The model is tied to "
                   "core/mapping and rest/httpx by differential execution on reflect.StructOf types, single calls and sequences of "
                   "calls of different unmarshaller kinds in one process.")
     level_note = ("Trusted: Coq kernel + vm_compute; hand-written model; correspondence only on generated types/documents; "
@@ -3038,9 +3040,14 @@ class C08(Property):
             "process on the same key text / tag text / struct type / default text, both orders, with per-case unique texts; "
             "(3) httpx.Parse on multi-tagged structs fed from four sources + request validator; (4) dotted keys with scope "
             "fall-back and object completion, '-' keys, tag syntax variants and malformed tags, boundary spellings of numbers, "
-            "supplied zero values, slice defaults, dependency chains and cycles, content types, broken texts. "
+            "supplied zero values, slice defaults, dependency chains and cycles, content types, broken texts; "
+            "(5) ONE request object looked at 2-6 times through Parse / ParseForm / GetFormValues / ParseHeaders / ParsePath / "
+            "ParseJsonBody in rotating orders (empty form values in every position; URL, posted, multipart and split transports), "
+            "the same input map / bytes handed to several core/mapping calls; after every call of every case the caller's objects "
+            "are compared with what they held before. "
             "non-trivial = the type has a field combining >= 2 option kinds or a composite type and the document supplies a "
-            "constrained or nested field; for sequences: an earlier call carries a key the last one omits; distinct = canonical hash")
+            "constrained or nested field; for sequences: an earlier call carries a key the last one omits, or one object of the caller is looked at more "
+            "than once; distinct = canonical hash")
     trusted_base = [
         "models theories/C08/Model.v + KModel.v are hand-written; tie = correspondence run (harness/cmd/c08) on generated types, "
         "documents and call sequences; constants and unmarshaller constructions re-extracted from the source on every run "
@@ -3333,6 +3340,9 @@ class C08(Property):
                 d = d or st.get("doc")
                 return set(kv["k"] for kv in d["o"]) if d and "o" in d else set()
             last = keys(case["steps"][-1])
+            ids = [st.get("reqid") for st in case["steps"] if st.get("reqid")]
+            if len(ids) != len(set(ids)):
+                return True         # one object of the caller looked at more than once
             return len(case["steps"]) > 1 and any(keys(st) - last for st in case["steps"][:-1])
         acc = self._field_stats(case["type"]["f"], {})
         d = model_doc(case)
@@ -3345,6 +3355,9 @@ class C08(Property):
                   "seq:procs1=%s" % bool(case.get("procs1")), "seq:direct=%s" % bool(case["steps"][0].get("direct"))]
             fs += ["seq:earlier=" + o["verdict"] for o in obs["steps"][:-1]]
             fs.append("seq:last=" + obs["steps"][-1]["verdict"])
+            if any(st.get("reqid") for st in case["steps"]):
+                fs.append("seq:shared-request" if any(st["mode"] == "parse" for st in case["steps"]) else "seq:reused-input")
+                fs += ["seq:entry=" + (st.get("entry") or st["mode"]) for st in case["steps"]]
             if any(st.get("repeat") for st in case["steps"]):
                 fs.append("seq:too-many-form-values")
             if any(st.get("pad") for st in case["steps"]):
